@@ -5,6 +5,7 @@ package main
 
 import (
 	"fmt"
+	"os"
 	"go/ast"
 	"go/constant"
 	"go/token"
@@ -171,10 +172,14 @@ func (fe *FE) computeLoops() {
 		}
 		return best
 	}
-	sort.SliceStable(fe.loopOrd, func(i, j int) bool { return pos(fe.loopOrd[i]) < pos(fe.loopOrd[j]) })
+	// loops are numbered in the order the SSA builder created their head blocks (= source order of the loop statements)
+	_ = pos
 	for i, h := range fe.loopOrd {
 		li := fe.loops[h]
 		li.ord = i
+		if os.Getenv("GOVC_DEBUG") != "" {
+			fmt.Fprintf(os.Stderr, "loop %d of %s: head block %d (%s) line %d\n", i, fe.FnName, h.Index, h.Comment, fe.Fn.Prog.Fset.Position(pos(h)).Line)
+		}
 		for _, c := range fe.C.Loops[i] {
 			switch c.Kind {
 			case "invariant":
@@ -350,6 +355,40 @@ func (fe *FE) Run() {
 	fe.resolveOwnFrame(st)
 	fe.smoke(st, "requires")
 	fe.runBlock(st, fn.Blocks[0], nil)
+	fe.checkPanicSafe()
+}
+
+// checkPanicSafe: after a write to pre-existing state nothing that can panic is executed (so a panic of this function
+// leaves pre-existing state untouched).
+func (fe *FE) checkPanicSafe() {
+	if !fe.C.PanicSafe {
+		return
+	}
+	ob := &Obligation{Name: fe.FnName + ":panicsafe:writes-last", Func: fe.FnName, Kind: "panicsafe", Tags: fe.C.Props, Goal: "true", Result: "unsat", Solver: "structural", Src: "writes to pre-existing state are followed only by stores and the return"}
+	seen := map[string]bool{}
+	for _, w := range fe.nonFreshWrites {
+		if seen[w] {
+			continue
+		}
+		seen[w] = true
+		var bi, ii int
+		fmt.Sscanf(w, "%d.%d", &bi, &ii)
+		b := fe.Fn.Blocks[bi]
+		for _, ins := range b.Instrs[ii+1:] {
+			switch ins.(type) {
+			case *ssa.Store, *ssa.DebugRef, *ssa.RunDefers, *ssa.Return, *ssa.FieldAddr, *ssa.UnOp:
+				continue
+			default:
+				ob.Result = "failed"
+				ob.Detail = fmt.Sprintf("instruction %T follows a write to pre-existing state in block %d", ins, bi)
+			}
+		}
+		if _, ok := b.Instrs[len(b.Instrs)-1].(*ssa.Return); !ok {
+			ob.Result = "failed"
+			ob.Detail = fmt.Sprintf("block %d with a write to pre-existing state does not end in return", bi)
+		}
+	}
+	fe.Obs = append(fe.Obs, ob)
 }
 
 func shortFile(f string) string {
@@ -584,6 +623,7 @@ func (fe *FE) execFrom(st *State, b *ssa.BasicBlock, from int) {
 			fe.doPanic(st, "explicit panic", "panic", fmt.Sprintf("b%d.%d", b.Index, i))
 			return
 		default:
+			fe.curIns = [2]int{b.Index, i}
 			cont := fe.execInstr(st, ins, b, i)
 			// states forked inside the instruction (e.g. append in place / realloc)
 			forks := fe.pendingFork
@@ -1058,7 +1098,11 @@ func (fe *FE) execUnOp(st *State, x *ssa.UnOp, site string) bool {
 
 // rangeOb: in `arith int` mode machine arithmetic must stay in range.
 func (fe *FE) rangeOb(st *State, v Val, site string) {
-	if fe.S.BV || fe.C.Arith == "int unchecked" {
+	if fe.S.BV {
+		return
+	}
+	if fe.C.Arith == "int unchecked" {
+		fe.usedAsm["machine integer arithmetic of "+fe.FnName+" is treated as mathematical without range obligations (arith int unchecked)"] = true
 		return
 	}
 	r := intRange(v.GoT)
